@@ -353,8 +353,12 @@ def run(R):
                 inner = strip_refs(t_[1])
                 is_result = len(t_) > 2 and t_[2] and 'Err' in [n_ for _, n_ in t_[2]]
                 return is_result and not is_call(inner, name='get') and not (is_call(inner, name='branch'))
-            det = view_get(v, lambda k: decoded(k, 'GRPC_STATUS_DETAILS'))
-            msg = view_get(v, lambda k: decoded(k, 'GRPC_MESSAGE'))
+            def outcome(cname):
+                # several tests may look at the same decode result (it may be re-wrapped by a helper): a failure seen by any of them counts
+                vs = [x for k, x in v.items() if decoded(k, cname)]
+                return 'Err' if 'Err' in vs else ('Ok' if vs and all(x == 'Ok' for x in vs) else None)
+            det = outcome('GRPC_STATUS_DETAILS')
+            msg = outcome('GRPC_MESSAGE')
             failed = [nm for nm, x in (('message', msg), ('details', det)) if x == 'Err']
             if failed:
                 n += 1
